@@ -4,9 +4,10 @@ import NGF.Model.Proto
 Driver entry for C05.
   model line : the `M` part of a harness step (harness/c05/view.go):
       ev=.. sk=.. ch=.. ns=.. gw=.. ls=.. rs=.. plus=.. ps=.. bt=.. pt=.. br=.. hp=.. rt=.. ft=.. dp=.. ur=.. shadow=..
-  output     : `sites=<site,site,…|-> may=<site,…|->`  the mirrored sites that fire in this step, in pipeline
-               order, and the sites that fire if some backendRef reaches them (reachability not modelled)
-  judge line : `outcome=<ok|nochange|panic|hang> site=<token|-> ur=<n> up=<parentRefs of the silent routes>`
+  output     : `sites=<site,…|-> pre=<site,…|-> premay=<site,…|->`  the mirrored sites that fire in this step (current
+               code), the sites the PRE-FIX mirrors (before d734bd5 / 02715d5) would fire, and the site the pre-72dccd7
+               mirror fires if some backendRef reaches such a policy (reachability not modelled)
+  judge line : `outcome=<ok|nochange|panic|hang> site=<token|-> ur=<n> up=<parentRefs of the silent routes> pu=<n>`
   output     : `ok` | `fail hang` | `fail panic <token>` | `fail unreported <class>`
 -/
 namespace NGF.PanicSites
@@ -136,18 +137,20 @@ def parseSpecRef (s : String) : Option SpecRef :=
 def silentClasses (up : String) : Option (List String) :=
   (listOf up ";").mapM fun r => (listOf r "|").mapM parseSpecRef |>.map classifySilent
 
+def showSites (l : List Site) : String := if l.isEmpty then "-" else ",".intercalate (l.map Site.name)
+
 def modelLine (line : String) : String :=
   match parseStep line with
   | none => "bad-op"
   | some (u, v) =>
-    let sites := stepSites u (fun _ _ => true) v
-    let may := if v.changed then btpMaySites v.btps else []
-    "sites=" ++ (if sites.isEmpty then "-" else ",".intercalate (sites.map Site.name))
-      ++ " may=" ++ (if may.isEmpty then "-" else ",".intercalate (may.map Site.name))
+    let m : String → String → Bool := fun _ _ => true
+    let premay := if v.changed then btpMaySitesPre v.btps else []
+    s!"sites={showSites (stepSites u m v)} pre={showSites (preSites m v)} premay={showSites premay}"
 
 /-- The property on one observed step of the real controller: it returned (no hang), did not panic,
-and every route it declared invalid carries at least one condition (so the problem is reported). -/
-def judge (outcome site : String) (unreported : Nat) (classes : List String) : Option String :=
+every route it declared invalid carries at least one condition, and every parentRef of an attachable route
+either attached or carries a failed condition (so the problem is reported in the route's status). -/
+def judge (outcome site : String) (unreported : Nat) (classes : List String) (silentParents : Nat) : Option String :=
   if outcome == "hang" then some "hang"
   else if outcome == "panic" then some ("panic " ++ site)
   else if outcome != "ok" && outcome != "nochange" then some "bad-outcome"
@@ -155,16 +158,20 @@ def judge (outcome site : String) (unreported : Nat) (classes : List String) : O
     -- the most specific class first; "inadmissible" means the harness generated something the API server rejects
     some ("unreported " ++ (classes.find? (· == "parentrefs-same-section-different-port")
       |>.getD (classes.headD "other")))
+  else if silentParents > 0 then
+    -- a parentRef of an attachable route neither attached nor carrying a failed condition
+    some "unreported parentref-without-condition"
   else none
 
 def judgeLine (line : String) : String :=
   let fs := line.splitOn " "
-  match field fs "outcome", field fs "site", (field fs "ur").bind String.toNat?, (field fs "up").bind silentClasses with
-  | some o, some s, some u, some cl =>
-    match judge o s u cl with
+  match field fs "outcome", field fs "site", (field fs "ur").bind String.toNat?, (field fs "up").bind silentClasses,
+        (field fs "pu").bind String.toNat? with
+  | some o, some s, some u, some cl, some pu =>
+    match judge o s u cl pu with
     | none => "ok"
     | some c => "fail " ++ c
-  | _, _, _, _ => "bad-op"
+  | _, _, _, _, _ => "bad-op"
 
 def driver (args : List String) : IO UInt32 := do
   let stdin ← IO.getStdin
